@@ -97,6 +97,7 @@ var errors = struct{ New func(text string) error }{}
 var io = struct{ EOF, ErrUnexpectedEOF error }{}
 var strings = struct{ HasSuffix func(s, suffix string) bool }{}
 var hex = struct{ EncodeToString func(src []byte) string }{}
+var bytes = struct{ Equal func(a, b []byte) bool }{}
 
 `
 
@@ -446,7 +447,8 @@ type finishedHash struct {
 // The session cache is a stub: an association list with a pure Get (the real LRU also moves the entry to the
 // front: C11's subject); sendAlert records the alert and returns it as the error.
 var selWanted = []string{"requiresClientCert", "Config.cipherSuites", "mutualCipherSuite", "selectCipherSuite",
-	"serverHandshakeState.cipherSuiteOk", "serverHandshakeState.pickCipherSuite", "serverHandshakeState.checkForResumption"}
+	"serverHandshakeState.cipherSuiteOk", "serverHandshakeState.pickCipherSuite", "serverHandshakeState.checkForResumption",
+	"checkALPN", "clientHandshakeState.pickCipherSuite", "clientHandshakeState.serverResumedSession", "clientHandshakeState.processServerHello"}
 
 const selStubs = `
 type cipherSuite struct {
@@ -464,6 +466,7 @@ type goCert struct{}
 type SessionState struct {
 	vers             uint16
 	cipherSuite      uint16
+	masterSecret     []byte
 	peerCertificates []goCert
 }
 type goCacheEntry struct {
@@ -482,10 +485,12 @@ func (c *goCache) Get(sessionKey string) (*SessionState, bool) {
 }
 
 type Conn struct {
-	config      *Config
-	vers        uint16
-	cipherSuite uint16
-	alerts      []alert
+	config           *Config
+	vers             uint16
+	cipherSuite      uint16
+	clientProtocol   string
+	peerCertificates []goCert
+	alerts           []alert
 }
 
 func (c *Conn) sendAlert(a alert) error {
@@ -495,8 +500,23 @@ func (c *Conn) sendAlert(a alert) error {
 func (e alert) Error() string { return "" }
 
 type clientHelloMsg struct {
-	sessionId    []byte
-	cipherSuites []uint16
+	sessionId     []byte
+	cipherSuites  []uint16
+	alpnProtocols []string
+}
+type serverHelloMsg struct {
+	sessionId         []byte
+	cipherSuite       uint16
+	compressionMethod uint8
+	alpnProtocol      string
+}
+type clientHandshakeState struct {
+	c            *Conn
+	serverHello  *serverHelloMsg
+	hello        *clientHelloMsg
+	suite        *cipherSuite
+	masterSecret []byte
+	session      *SessionState
 }
 type serverHandshakeState struct {
 	c            *Conn
@@ -588,11 +608,13 @@ func (b goCBC) BlockSize() int { return b.blockSize }
 // viewStructs: stub structs standing for real ones, with the fields whose type is abstracted
 var viewStructs = map[string]map[string]bool{
 	"serverHandshakeState": {},
+	"clientHandshakeState": {},
+	"serverHelloMsg":       {},
 	"SessionState":         {"peerCertificates": true},
 	"clientHelloMsg":       {},
 	"finishedHash":         {},
 	"ProtocolDetectConn":   {"Conn": true},
-	"Conn":                 {},
+	"Conn":                 {"peerCertificates": true},
 	"Config":               {"SessionCache": true},
 	"halfConn":             {"mac": true},
 	"RetransmitTimer":      {"starts": true},
@@ -1923,6 +1945,11 @@ func (t *tr) binary(op token.Token, X, Y ast.Expr, resTy types.Type) string {
 						return "(!(" + t.atom(other) + ").isEmpty)"
 					}
 					if sl, ok := ot.Underlying().(*types.Slice); ok && curOptPtr {
+						if w, _, _ := intKind(sl.Elem()); w == 8 {
+							t.tabTypes["nonNilBytes"] = "(List (BitVec 8) → Bool)"
+							t.useTab("nonNilBytes")
+							return "(" + neg + "nonNilBytes " + t.atom(other) + ")"
+						}
 						if w, _, _ := intKind(sl.Elem()); w == 16 {
 							// nil and empty slices are the same List: the outcome is a parameter of the definition
 							t.tabTypes["nonNilU16"] = "(List (BitVec 16) → Bool)"
@@ -2263,6 +2290,8 @@ func (t *tr) externCall(c *ast.CallExpr) (string, bool) {
 				bad("hmac.New arity")
 			case "subtle.ConstantTimeCompare":
 				return "(Go.constantTimeCompare " + t.atom(c.Args[0]) + " " + t.atom(c.Args[1]) + ")", true
+			case "bytes.Equal":
+				return "(" + t.atom(c.Args[0]) + " == " + t.atom(c.Args[1]) + ")", true
 			case "hex.EncodeToString":
 				return "(Go.hexEncode " + t.atom(c.Args[0]) + ")", true
 			case "strings.HasSuffix":
@@ -3870,10 +3899,68 @@ func (t *tr) findPtrSubst(m *fnMeta) {
 			}
 			return true
 		})
+		// … nor by a method called on the root variable (hs.reset() doing hs.c = …)
+		root := rootOf(path)
+		rest := strings.Split(path, ".")
+		if len(rest) >= 2 && t.rootMethodAssigns(body, root, rest[1]) {
+			bad = true
+		}
 		if !bad {
 			t.ptrSubst[obj] = as.Rhs[0]
 		}
 	}
+}
+
+// assignsRecvField: method m assigns its receiver's field `field` as a whole (m.recv.field = …), directly or
+// through a method it calls on its own receiver
+func (t *tr) assignsRecvField(m *fnMeta, field string, depth int) bool {
+	if m == nil || m.decl.Recv == nil || m.decl.Body == nil || depth > 6 || len(m.decl.Recv.List[0].Names) != 1 {
+		return false
+	}
+	rn := m.decl.Recv.List[0].Names[0].Name
+	found := false
+	ast.Inspect(m.decl.Body, func(n ast.Node) bool {
+		switch x := n.(type) {
+		case *ast.AssignStmt:
+			for _, l := range x.Lhs {
+				if p, ok := pathOf(l); ok && p == rn+"."+field {
+					found = true
+				}
+			}
+		case *ast.CallExpr:
+			if f, ok := x.Fun.(*ast.SelectorExpr); ok {
+				if id, ok := f.X.(*ast.Ident); ok && id.Name == rn {
+					if sel := t.info.Selections[f]; sel != nil && sel.Kind() == types.MethodVal {
+						if t.assignsRecvField(t.byObj[sel.Obj()], field, depth+1) {
+							found = true
+						}
+					}
+				}
+			}
+		}
+		return true
+	})
+	return found
+}
+
+// rootMethodAssigns: body calls, on the variable `root`, a method that assigns root.field as a whole
+func (t *tr) rootMethodAssigns(body *ast.BlockStmt, root, field string) bool {
+	found := false
+	ast.Inspect(body, func(n ast.Node) bool {
+		if c, ok := n.(*ast.CallExpr); ok {
+			if f, ok := c.Fun.(*ast.SelectorExpr); ok {
+				if id, ok := f.X.(*ast.Ident); ok && id.Name == root {
+					if sel := t.info.Selections[f]; sel != nil && sel.Kind() == types.MethodVal {
+						if t.assignsRecvField(t.byObj[sel.Obj()], field, 0) {
+							found = true
+						}
+					}
+				}
+			}
+		}
+		return true
+	})
+	return found
 }
 
 func isStructPtr(ty types.Type) bool {
@@ -4256,7 +4343,7 @@ func translatePackage(repo string, g group, w *strings.Builder, untranslated *[]
 			for _, sp := range gd.Specs {
 				vs := sp.(*ast.ValueSpec)
 				for i, nm := range vs.Names {
-					if nm.Name == "_" || i >= len(vs.Values) || nm.Name == "hmac" || nm.Name == "sm3" || nm.Name == "sha256" || nm.Name == "subtle" || nm.Name == "rxExtern" || nm.Name == "errOpaque" || nm.Name == "fmt" || nm.Name == "errors" || nm.Name == "io" || nm.Name == "strings" || nm.Name == "hex" {
+					if nm.Name == "_" || i >= len(vs.Values) || nm.Name == "hmac" || nm.Name == "sm3" || nm.Name == "sha256" || nm.Name == "subtle" || nm.Name == "rxExtern" || nm.Name == "errOpaque" || nm.Name == "fmt" || nm.Name == "errors" || nm.Name == "io" || nm.Name == "strings" || nm.Name == "hex" || nm.Name == "bytes" {
 						continue
 					}
 					obj := info.Defs[nm]
